@@ -308,6 +308,11 @@ func RunC16(c *Ctx) {
 			}
 		})
 	}
+	workload.W7Positions(40, func(cs *h.Case) {
+		if c.Thorough() || (cs.P[0]+cs.P[2]+int(c.Seed))%4 == 0 {
+			sink(cs)
+		}
+	})
 	workload.W5([]int{1000, 70000}, sink)
 	gr.close()
 }
